@@ -60,8 +60,11 @@ class C05(netlib.Guarded, Prop):
         "hypothesis, shown necessary by a refutation witness. Tied to /repo by running each generated workflow under "
         "several seeded permuting event loops, with different suspension points and different orders of the injected "
         "tokens, comparing the output ports' tag->value bags between runs (oracle) and with the model.")
-    LEVEL_NOTE = ("partial: order-insensitivity of combinators/gather/loops is assumed in the composition theorem and "
-                  "only exercised (scatter/gather/dot/cartesian graphs, oracle only); asyncio is not modelled")
+    LEVEL_NOTE = ("partial: order-insensitivity is proved for GatherStep, LoopOutputStep, flat dot product and cartesian product "
+                  "(per machine, and per port inside a network for the two combinators), and the composition theorem is "
+                  "instantiated without hypotheses for Transformer networks and for scatter->transform->gather; it is still "
+                  "assumed for ExecuteStep with concurrent jobs and LoopCombinatorStep, and no single network joins the "
+                  "combinator and the gather (different token types). asyncio is not modelled")
     TECHNIQUE = ("Coq proof (diamond property => unique maximal execution; induction over the topological order for "
                  "bags) + vm_compute correspondence against StreamFlowExecutor.run() under permuted schedules")
     RULE = ("each case = one generated workflow (as C04, no failure; shape-regular DAGs of Transformer/Conditional "
